@@ -10,5 +10,7 @@ CONSTANTS
   ChirpKeyByChannel = TRUE
   EagerOps <- None_
   NumpyOps <- None_
+  ReaderPerBlock = FALSE
+  OverwriteTags <- None_
 INVARIANT EmitLeaf
 CHECK_DEADLOCK FALSE
